@@ -85,6 +85,17 @@ def check_inverse_map(ctx, b, ncol, rule):
         ctx.fn(b)
         name = b.path.split('::')[-1]
         th0, sols0 = util.table_locals(b)
+        if th0 is not None and sols0 is None:
+            # the candidates are not written through an index loop over a second array: what each slot of each candidate is,
+            # read off the symbolic interpretation of the solver
+            f, tail = opw.solver_tail(ctx, b, ncol == 5)
+            if f is not None:
+                im = tail.inverse_map()
+                bad = [(r, c, shown) for r, c, ok, shown in im if not ok]
+                ctx.check(not bad and len(im) == 8 * ncol, rule, name + '/inverse-map', b.where(0), b.path,
+                          'the angle written into a candidate is not (theta + offsets[i]) * sign[i] for the same i over all %d joints: %s' % (
+                              ncol, ['candidate %d slot %d = %s' % x for x in bad[:2]]), found=str(bad[:2]), detail='%d slots by symbolic interpretation' % len(im))
+                return
         ctx.require(th0 is not None and sols0 is not None, 'candidate table and candidate array ([[f64;N];8]) in ' + name)
         sols, th = [sols0], [th0]
         found = False
@@ -194,6 +205,10 @@ def run(ctx):
                     hi = Bounds(b).rng(r[1])
                     found = '0..%s' % (hi,)
                     ok = util.const_val(r[0]) == 0 and hi == (8, 8)
+        if not ok:
+            tv = opw.tail_verdict(ctx, b, b is five, ('verify-all-rows',))
+            if tv is not None:
+                ok, found = tv
         ctx.check(ok, 'R02.2', name + '/verify-all-rows', b.where(0), b.path, 'the verification loop must visit all eight candidate rows', found=found, detail=found or '')
 
     # ---- R02.4 sibling agreement
